@@ -199,6 +199,13 @@ def run(tier, seed, replay):
             src = ".[0] as $x | .[1] as $a | $x | " + n + ("(" + "; ".join(["$a"] * int(ar)) + ")" if int(ar) else "")
             ins = [{"t": "arr", "a": [r.choice(vals), r.choice(vals + [jqgen.V("%Y-%m-%dT%H:%M:%S %Z %z %s"), jqgen.V("%c"), jqgen.V("%Z")])]} for _ in range(6 if quick else 40)]
             acases.append({"id": len(acases), "src": src, "inputs": ins})
+        # the time functions that must NOT depend on the process time zone, with zone-revealing formats and instants in DST gaps
+        for q in ["strftime(\"%Y-%m-%dT%H:%M:%S %Z %z %s\")", "todate", "todateiso8601", "gmtime", "gmtime | mktime", "gmtime | todate", "strftime(\"%c\")", "strftime(\"%Z\")", "gmtime | strftime(\"%H %z\")",
+                  "todate | fromdate", "todate | strptime(\"%Y-%m-%dT%H:%M:%SZ\") | mktime", "[gmtime, todate, (todate|fromdate)]"]:
+            acases.append({"id": len(acases), "src": q, "inputs": [jqgen.V(x) for x in (0, 1500000000, 1615689000, 1615692600, 1636264800, 1636268400, 951782400, -1, 1e9, 253402300799)]})
+        for q in ["fromdate", "fromdateiso8601", "strptime(\"%Y-%m-%dT%H:%M:%SZ\")", "strptime(\"%Y-%m-%dT%H:%M:%S%z\") | mktime"]:
+            acases.append({"id": len(acases), "src": q, "inputs": [jqgen.V(x) for x in ("2015-03-05T23:51:47Z", "2021-03-14T02:30:00Z", "2021-11-07T01:30:00Z", "1970-01-01T00:00:00Z")]})
+        acases.append({"id": len(acases), "src": "mktime, (mktime | todate)", "inputs": [jqgen.V(x) for x in ([2021, 2, 14, 2, 30, 0, 0, 72], [2015, 2, 5, 23, 51, 47, 4, 63], [1970, 0, 1, 0, 0, 0, 4, 0])]})
         acases.append({"id": len(acases), "src": "[env, $ENV, (env | length), ($ENV | keys)]", "inputs": [jqgen.V(None)]})
         acases.append({"id": len(acases), "src": "[$__loc__, (try input_line_number catch 0)]" if False else "$__loc__", "inputs": [jqgen.V(None)]})
         vc.write_ndjson(work.path("amb.cases"), acases)
